@@ -51,10 +51,6 @@ class WMIExperiment(Experiment):
                                       body = {'job_id': self._job_id},
                                       title = const.NW_MSG_QUERY)
         self.from_json(response.json())
-        
-        # update results
-        if self.status == ExperimentStatus.DONE:
-            self._results = WMIExperimentResults(self).from_json(response.json())
 
         return self.status
 
@@ -136,6 +132,10 @@ class WMIExperiment(Experiment):
         self._job_id = json['job_id']
         self._execution_datetime = json['execution_datetime']
         self._from_wmi_status(json['status'])
+        # the results come with the reply that reports the experiment as finished, be it the reply
+        # to a status query or to the submission itself (no further request is made once DONE)
+        if self.status == ExperimentStatus.DONE:
+            self._results = WMIExperimentResults(self).from_json(json)
         return self
         
     def _initialize(self):
